@@ -2,158 +2,202 @@ import RsMatterVerif.Lemmas.Chunk
 /-!
 # C14 — a chunked answer carries the complete result exactly once
 
-Theorems over `Model/Chunk.lean` (the chunking algorithm of `ReportDataResponder`, attribute
-section, repaired code: the array end is written from a structural reserve).
+Theorems over `Model/Chunk.lean` (`ReportDataResponder`: attribute section with data-version
+filters, event section with the reader's cursor and event filters, subscription-id header as a
+larger `hdr`, empty-report suppression; repaired code: the array ends / the event array start are
+written from a structural reserve, and a report that fits no message is answered with an error
+status instead of an endless sequence of empty chunks).
 
-Under `Fits` (every report the algorithm may have to place in an empty message fits one — stated,
-decidable) and a sane configuration `Cfg.WF`:
-* `concat_eq_items`: the reports of all chunks, concatenated, are the reports of the selected items —
-  each item once, in request order, a list either whole or as "empty list + one append per element";
-  `reassemble_allPieces`: they reassemble to the original items (lists with all their elements in
-  order) — reports are never divided, so lists are split only at element boundaries;
-* `each_chunk_bounded`, `chunk_size_accounts`: every message is at most `cap` long and its length is
-  header + array start + its reports + trailer;
-* `only_last_ends`: MoreChunkedMessages is set on all messages but the last;
-* `progress`: every message except possibly the last carries at least one report (the last one is
-  empty only when the header of the end-of-list probe did not fit the previous message), so the
-  number of messages is bounded by the number of reports + 1: `chunk_count_bounded`; `fits_ok`: the
-  algorithm ends with an answer (no `NoSpace`, no endless loop).
-Without `Fits`: `oversize_item_loops` (the retry loop of the code never ends — it keeps sending
-empty chunks), hence `C14_full_fails`.
+For every request, every sane configuration `Cfg.WF` (the buffer length is a parameter) and every
+combination of sizes:
+* `respond_good` — whenever the responder ends with an answer, the answer is `Good`: the attribute
+  reports of all messages, concatenated, are the reports of the selected attributes (not filtered
+  by the subscription, not held back by a data-version filter), each once, in request order, a list
+  whole or as "empty list + one append per element", an error status standing for a report that
+  fits no message — and only for such a report (`Justified`); the event reports are the status
+  reports of the invalid paths and then the events of the buffer in the cursor's range that pass
+  the event filters, each once, in buffer order (the buffer's event numbers ascend); every message
+  is at most `cap` long; no attribute report follows an event report (`attrs_before_events`);
+  MoreChunkedMessages is set on all messages but the last; nothing at all is sent only when empty
+  reports are suppressed and nothing was selected;
+* `respond_never_loops`, `respond_total` — the responder always ends: with an answer when the error
+  statuses and the event reports fit an empty message, otherwise with `NoSpace` / `ResourceExhausted`;
+  never with the endless chunk sequence of the unrepaired code (`evLoop_eq_sweep`: the rescan of the
+  event buffer after every sent chunk resumes exactly after the last event written);
+* `complete_of_fits`, `reassembled_answer` — under `Fits` (every report that may have to go into an
+  empty message fits one) no error status is used and the stream reassembles to the original items,
+  lists complete and in order: `C14_partial`.
+`C14_full` (every value delivered whatever its size) is refuted: `C14_full_fails`.
+For reads of attributes only (`chunks`): `chunk_size_accounts`, `progress`, `chunk_count_bounded`.
 The defect of the unrepaired code: `exact_fit_fails_before_fix`.
 -/
 namespace C14
 open Chunk
 
-/-- what a well-behaved answer `cs` to `items` looks like -/
-structure Good (c : Cfg) (items : List Item) (cs : List ChunkOut) : Prop where
-  /-- complete, exactly once, in order -/
-  content : ∃ splits, splits.length = items.length ∧ cs.flatMap (·.pieces) = allPieces items splits
+/-- the event reports a correct answer to the request carries -/
+def eventsOf (r : Req) : List EvPiece :=
+  match r.events with
+  | none => []
+  | some e => e.reports
+
+/-- the event numbers in the buffer ascend in iteration order (an invariant of `Events`: the rings
+are iterated oldest ring first and every ring is a FIFO) -/
+def Ascending (r : Req) : Prop :=
+  match r.events with
+  | none => True
+  | some e => (e.buf.map (·.num)).Pairwise (· < ·)
+
+/-- what a well-behaved answer `cs` to `r` looks like -/
+structure Good (c : Cfg) (r : Req) (cs : List ChunkOut) : Prop where
+  /-- every selected attribute exactly once, in order; an error status only for what fits no message -/
+  attrs : ∃ outs, AllJustified c (selOf r.attrs) outs ∧ cs.flatMap (·.pieces) = allPieces (selOf r.attrs) outs
+  /-- every selected event exactly once, in order -/
+  events : cs.flatMap (·.events) = eventsOf r
   /-- fits the transport's maximum size -/
   bounded : ∀ ch ∈ cs, ch.size ≤ c.cap
-  /-- only the last message ends the interaction -/
-  lastEnds : ∃ front last, cs = front ++ [last] ∧ last.more = false ∧ ∀ ch ∈ front, ch.more = true
-  /-- every message but the last carries at least one report -/
-  progress : ∀ ch ∈ cs.dropLast, ch.pieces ≠ []
+  /-- no attribute report follows an event report -/
+  order : Ordered cs
+  /-- only the last message ends the interaction (no message: an empty report that is not to be sent) -/
+  lastEnds : (cs = [] ∧ r.sendIfEmpty = false) ∨
+    ∃ front last, cs = front ++ [last] ∧ last.more = false ∧ ∀ ch ∈ front, ch.more = true
 
-/-- an `ok` result comes from a final state satisfying the invariant -/
-theorem chunks_ok_shape {c : Cfg} {items : List Item} {cs : List ChunkOut} (hw : c.WF)
-    (h : chunks c items = .ok cs) :
-    ∃ s, putItems c items (St.init c) = .ok s ∧ Inv c s ∧
-      cs = ({ pieces := s.cur.reverse, size := s.used + c.close + c.trailerDone, more := false } :: s.done).reverse := by
-  unfold chunks at h
-  cases hp : putItems c items (St.init c) with
-  | error err => rw [hp] at h; simp at h
-  | ok s =>
-    rw [hp] at h
-    simp only [finish] at h
-    split at h
-    · injection h with h
-      exact ⟨s, rfl, (putItems_ok hw items _ s (inv_init c hw) hp).1, h.symm⟩
-    · simp at h
+theorem evOut_eq_reports {r : Req} (ha : Ascending r) : evOut r.events = eventsOf r := by
+  unfold Ascending at ha
+  unfold eventsOf
+  cases he : r.events with
+  | none => rfl
+  | some e =>
+    rw [he] at ha
+    simp only [evOut, EvReq.reports, EvReq.selected]
+    rw [considered_eq_filter e e.buf e.maxSeen ha]
 
-theorem concat_eq_items {c : Cfg} {items : List Item} {cs : List ChunkOut} (hw : c.WF)
-    (h : chunks c items = .ok cs) :
-    ∃ splits, splits.length = items.length ∧ cs.flatMap (·.pieces) = allPieces items splits := by
-  obtain ⟨s, hp, _, rfl⟩ := chunks_ok_shape hw h
-  obtain ⟨_, splits, hl, hf⟩ := putItems_ok hw items _ s (inv_init c hw) hp
-  refine ⟨splits, hl, ?_⟩
-  have : (St.init c).flat = [] := by simp [St.flat, St.init]
-  rw [this, List.nil_append] at hf
-  rw [← hf]
-  simp [St.flat, List.flatMap_append]
+/-- an `ok` result: the final state of the sections and the messages sent -/
+theorem respond_shape {c : Cfg} {r : Req} {cs : List ChunkOut} (hw : c.WF) (h : respond c r = .ok cs) :
+    ∃ s1 s2, attrSection c r.attrs = .ok s1 ∧ eventSection c s1 r.events = .ok s2 ∧ FInv c s2 ∧
+      (∃ outs, AllJustified c (selOf r.attrs) outs ∧ s2.flatAt = allPieces (selOf r.attrs) outs) ∧
+      s2.flatEv = evOut r.events ∧
+      ((cs = [] ∧ r.sendIfEmpty = false ∧ s2.flatAt = [] ∧ s2.flatEv = []) ∨
+       cs = ({ pieces := s2.attrs.reverse, events := s2.evs.reverse, size := s2.used + c.trailerDone, more := false } :: s2.done).reverse) := by
+  unfold respond at h
+  cases h1 : attrSection c r.attrs with
+  | error e => rw [h1] at h; cases h
+  | ok s1 =>
+    rw [h1] at h
+    simp only at h
+    cases h2 : eventSection c s1 r.events with
+    | error e => rw [h2] at h; cases h
+    | ok s2 =>
+      rw [h2] at h
+      simp only at h
+      obtain ⟨a1, e1, f1, outs, hj, hfa⟩ := attrSection_ok hw h1
+      obtain ⟨a2, e2, fa2, fe2⟩ := eventSection_ok hw a1 e1 h2
+      refine ⟨s1, s2, rfl, h2, a2, ⟨outs, hj, by rw [fa2, hfa]⟩, by rw [fe2, f1, List.nil_append], ?_⟩
+      split at h
+      · rw [sendDone_ok hw a2] at h
+        injection h with h
+        exact .inr h.symm
+      · rename_i hsup
+        injection h with h
+        simp only [Bool.or_eq_true, Bool.not_eq_eq_eq_not, Bool.not_true, not_or, Bool.not_eq_true,
+          Bool.not_eq_false] at hsup
+        obtain ⟨hd, ha, he⟩ := e2 hsup.2
+        left
+        refine ⟨by rw [← h, hd]; rfl, hsup.1, by simp [ESt.flatAt, hd, ha], by simp [ESt.flatEv, hd, he]⟩
 
-theorem each_chunk_bounded {c : Cfg} {items : List Item} {cs : List ChunkOut} (hw : c.WF)
-    (h : chunks c items = .ok cs) : ∀ ch ∈ cs, ch.size ≤ c.cap := by
-  have hok := h
-  obtain ⟨s, hp, hinv, rfl⟩ := chunks_ok_shape hw h
-  intro ch hch
-  simp only [List.mem_reverse, List.mem_cons] at hch
-  rcases hch with rfl | hch
-  · simp only
-    have h1 := hinv.usedLe
-    have h2 := hw.trailerDone
-    have h3 := limit_le c hw
-    omega
-  · exact (hinv.doneOk ch hch).2.1
+/-- **attribute reports come first**: in the sequence of messages no attribute report follows an
+event report -/
+theorem attrs_before_events {c : Cfg} {r : Req} {cs : List ChunkOut} (hw : c.WF)
+    (h : respond c r = .ok cs) : Ordered cs := by
+  obtain ⟨s1, s2, h1, h2, _, _, _, hcs⟩ := respond_shape hw h
+  have o2 : OInv s2 := eventSection_ordered (attrSection_ordered hw h1) h2
+  rcases hcs with ⟨rfl, _⟩ | rfl
+  · trivial
+  · unfold OInv ESt.all at o2
+    simp only [List.reverse_cons]
+    exact ordered_last _ _ _ o2 rfl
 
-/-- the length of every message is header + array start + its reports + its trailer -/
-theorem chunk_size_accounts {c : Cfg} {items : List Item} {cs : List ChunkOut} (hw : c.WF)
-    (h : chunks c items = .ok cs) : ∀ ch ∈ cs,
-    ch.size = c.hdr + c.arrOpen + sumSizes ch.pieces +
-      (if ch.more then c.trailerMore else c.close + c.trailerDone) := by
-  obtain ⟨s, hp, hinv, rfl⟩ := chunks_ok_shape hw h
-  intro ch hch
-  simp only [List.mem_reverse, List.mem_cons] at hch
-  rcases hch with rfl | hch
-  · simp only [sumSizes_reverse]
-    have := hinv.usedEq
-    simp; omega
-  · obtain ⟨h1, _, h3⟩ := hinv.doneOk ch hch
-    rw [h3, h1]; simp
+/-- **C14 for every answer**: whatever the sizes, an answer of the responder is `Good` -/
+theorem respond_good {c : Cfg} {r : Req} {cs : List ChunkOut} (hw : c.WF) (ha : Ascending r)
+    (h : respond c r = .ok cs) : Good c r cs := by
+  have hord := attrs_before_events hw h
+  obtain ⟨s1, s2, _, _, hf, ⟨outs, hj, hfa⟩, hfe, hcs⟩ := respond_shape hw h
+  rcases hcs with ⟨rfl, hsup, ha0, he0⟩ | rfl
+  · refine ⟨⟨outs, hj, by rw [← hfa, ha0]; rfl⟩, by rw [← evOut_eq_reports ha, ← hfe, he0]; rfl, by simp, hord, .inl ⟨rfl, hsup⟩⟩
+  · refine ⟨⟨outs, hj, ?_⟩, ?_, ?_, hord, ?_⟩
+    · rw [← hfa]; simp [ESt.flatAt, List.flatMap_append]
+    · rw [← evOut_eq_reports ha, ← hfe]; simp [ESt.flatEv, List.flatMap_append]
+    · intro ch hch
+      simp only [List.mem_reverse, List.mem_cons] at hch
+      rcases hch with rfl | hch
+      · have := hf.usedLe; have := hf.limLe; have := hw.trailerDone; simp only; omega
+      · exact (hf.doneOk ch hch).2
+    · refine .inr ⟨s2.done.reverse, { pieces := s2.attrs.reverse, events := s2.evs.reverse, size := s2.used + c.trailerDone, more := false }, by simp, rfl, ?_⟩
+      intro ch hch
+      exact (hf.doneOk ch (List.mem_reverse.mp hch)).1
 
-theorem only_last_ends {c : Cfg} {items : List Item} {cs : List ChunkOut} (hw : c.WF)
-    (h : chunks c items = .ok cs) :
-    ∃ front last, cs = front ++ [last] ∧ last.more = false ∧ ∀ ch ∈ front, ch.more = true := by
-  obtain ⟨s, hp, hinv, rfl⟩ := chunks_ok_shape hw h
-  refine ⟨s.done.reverse, { pieces := s.cur.reverse, size := s.used + c.close + c.trailerDone, more := false },
-    by simp, rfl, ?_⟩
-  intro ch hch
-  exact (hinv.doneOk ch (List.mem_reverse.mp hch)).1
+/-- the error statuses that may stand for the selected attributes fit an empty message -/
+def StatusFits (c : Cfg) (r : Req) : Prop := ∀ it ∈ selOf r.attrs, c.hdr + c.arrOpen + it.st ≤ c.limit
 
-theorem progress {c : Cfg} {items : List Item} {cs : List ChunkOut} (hw : c.WF)
-    (h : chunks c items = .ok cs) : ∀ ch ∈ cs.dropLast, ch.pieces ≠ [] := by
-  obtain ⟨s, hp, hinv, rfl⟩ := chunks_ok_shape hw h
-  intro ch hch
-  simp only [List.reverse_cons, List.dropLast_concat] at hch
-  exact hinv.doneNonempty ch (List.mem_reverse.mp hch)
+/-- **the responder always ends with an answer** when the error statuses and the event reports fit
+an empty message (no hypothesis on the sizes of the attribute values) -/
+theorem respond_total {c : Cfg} {r : Req} (hw : c.WF) (hs : StatusFits c r) (he : EvFits c r.events) :
+    ∃ cs, respond c r = .ok cs := by
+  obtain ⟨s1, h1⟩ := attrSection_total hw r.attrs hs
+  obtain ⟨a1, _⟩ := attrSection_ok hw h1
+  obtain ⟨s2, h2⟩ := eventSection_total hw r.events a1 he
+  unfold respond
+  rw [h1]; simp only; rw [h2]; simp only
+  split
+  · obtain ⟨a2, _⟩ := eventSection_ok hw a1 (attrSection_ok hw h1).2.1 h2
+    rw [sendDone_ok hw a2]
+    exact ⟨_, rfl⟩
+  · exact ⟨_, rfl⟩
 
-/-- **Under `Fits` the algorithm ends with an answer** (no `NoSpace`, no endless loop) -/
-theorem fits_ok {c : Cfg} {items : List Item} (hw : c.WF) (hs : c.close ≤ c.structReserve)
-    (hf : Fits c items) : ∃ cs, chunks c items = .ok cs := by
-  obtain ⟨s, hp⟩ := putItems_fits items (St.init c) hf
-  have hinv := (putItems_ok hw items _ s (inv_init c hw) hp).1
-  unfold chunks
-  rw [hp]
-  simp only [finish]
-  have := hinv.usedLe
-  rw [if_pos (by omega)]
-  exact ⟨_, rfl⟩
+/-- **the responder always ends**: if not with an answer then with `NoSpace` (a structural write
+or an error status found no room) or `ResourceExhausted` (an event fits no message) — never with
+an endless sequence of chunks -/
+theorem respond_never_loops {c : Cfg} {r : Req} {e : Err} (hw : c.WF) (h : respond c r = .error e) :
+    e = .noSpace ∨ e = .tooBig := by
+  unfold respond at h
+  cases h1 : attrSection c r.attrs with
+  | error e' => rw [h1] at h; injection h with h; subst h; exact .inl (attrSection_err h1)
+  | ok s1 =>
+    rw [h1] at h
+    simp only at h
+    cases h2 : eventSection c s1 r.events with
+    | error e' => rw [h2] at h; injection h with h; subst h; exact eventSection_err h2
+    | ok s2 =>
+      rw [h2] at h
+      simp only at h
+      obtain ⟨a1, e1, _⟩ := attrSection_ok hw h1
+      obtain ⟨a2, _⟩ := eventSection_ok hw a1 e1 h2
+      split at h
+      · rw [sendDone_ok hw a2] at h; cases h
+      · cases h
 
-/-- **C14 on the model, under `Fits`** -/
-theorem C14_partial {c : Cfg} {items : List Item} (hw : c.WF) (hs : c.close ≤ c.structReserve)
-    (hf : Fits c items) : ∃ cs, chunks c items = .ok cs ∧ Good c items cs := by
-  obtain ⟨cs, h⟩ := fits_ok hw hs hf
-  exact ⟨cs, h, ⟨concat_eq_items hw h, each_chunk_bounded hw h, only_last_ends hw h, progress hw h⟩⟩
-
-/-- the configuration of a read over UDP with the repaired code -/
-def readCfg : Cfg :=
-  { cap := 1178, reserve := Consts.longReadsReserve, structReserve := Consts.longReadsStructReserve,
-    hdr := 1, arrOpen := 2, close := 1, trailerMore := 7, trailerDone := 6 }
-
-theorem readCfg_wf : readCfg.WF := by
-  refine ⟨?_, ?_, ?_, ?_⟩ <;> decide
-
-example : readCfg.WF ∧ readCfg.close ≤ readCfg.structReserve ∧
-    Fits readCfg [.scalar 0 1147, .list 16 2000 26 [128, 128, 1147] 23] :=
-  ⟨readCfg_wf, by decide, by intro it hit; simp at hit; rcases hit with rfl | rfl <;> decide⟩
-
-set_option maxRecDepth 8000 in
-/-- an item that fills the message exactly is chunked, not failed -/
-example : chunks readCfg [.scalar 0 500, .scalar 1 647] =
-    .ok [{ pieces := [.scalar 0 500, .scalar 1 647], size := 1157, more := false }] := by rfl
-
-set_option maxRecDepth 8000 in
-example : chunks readCfg [.scalar 0 500, .scalar 1 648] =
-    .ok [{ pieces := [.scalar 0 500], size := 510, more := true },
-         { pieces := [.scalar 1 648], size := 658, more := false }] := by rfl
+/-- under `Fits` no error status is used: every selected attribute is delivered completely -/
+theorem complete_of_fits {c : Cfg} {its : List Item} {outs : List Out} (hj : AllJustified c its outs)
+    (hf : Fits c its) : ∀ o ∈ outs, o.complete = true := by
+  induction hj with
+  | nil => intro o ho; cases ho
+  | @cons it o its os j _ ih =>
+    intro o' ho'
+    simp only [List.mem_cons] at ho'
+    rcases ho' with rfl | ho'
+    · cases hc : o'.complete with
+      | true => rfl
+      | false =>
+        have := j hc
+        rw [hf it (by simp)] at this
+        cases this
+    · exact ih (fun x hx => hf x (by simp [hx])) o' ho'
 
 /-! ## reassembly: lists come back complete and in order -/
 
 /-- the content of an item: its id and, for a list, its elements -/
 def content : Item → Nat × Option (List Nat)
-  | .scalar id _ => (id, none)
-  | .list id _ _ elems _ => (id, some elems)
+  | .scalar id _ _ => (id, none)
+  | .list id _ _ elems _ _ _ => (id, some elems)
 
 /-- the element reports at the head of a stream that append to list `id` -/
 def takeElems (id : Nat) : List Piece → List Nat × List Piece
@@ -176,6 +220,7 @@ theorem takeElems_length (id : Nat) : ∀ ps : List Piece, (takeElems id ps).2.l
     | scalar _ _ => simp [takeElems]
     | wholeList _ _ _ => simp [takeElems]
     | listStart _ _ => simp [takeElems]
+    | status _ _ => simp [takeElems]
 
 /-- what a client reconstructs from the stream of reports -/
 def reassemble : List Piece → List (Nat × Option (List Nat))
@@ -186,6 +231,7 @@ def reassemble : List Piece → List (Nat × Option (List Nat))
     have := takeElems_length id rest
     (id, some (takeElems id rest).1) :: reassemble (takeElems id rest).2
   | .listElem _ _ _ :: rest => reassemble rest
+  | .status _ _ :: rest => reassemble rest
 termination_by ps => ps.length
 decreasing_by all_goals simp_wf <;> omega
 
@@ -209,61 +255,175 @@ theorem takeElems_elemPieces (id : Nat) : ∀ (es : List Nat) (k : Nat) (rest : 
       | scalar _ _ => simp [takeElems]
       | wholeList _ _ _ => simp [takeElems]
       | listStart _ _ => simp [takeElems]
+      | status _ _ => simp [takeElems]
   | cons e es ih =>
     intro k rest hr
     rw [elemPieces_cons]
     simp only [List.cons_append, takeElems, if_true]
     rw [ih (k + 1) rest hr]
 
-theorem noElemHead_allPieces : ∀ (its : List Item) (bs : List Bool), NoElemHead (allPieces its bs) := by
+theorem noElemHead_pieces (it : Item) (o : Out) (rest : List Piece) : NoElemHead (it.pieces o ++ rest) := by
+  cases it <;> cases o <;> simp [Item.pieces, NoElemHead]
+
+theorem noElemHead_allPieces : ∀ (its : List Item) (os : List Out), NoElemHead (allPieces its os) := by
   intro its
   cases its with
-  | nil => intro bs; simp [allPieces, NoElemHead]
+  | nil => intro os; simp [allPieces, NoElemHead]
   | cons it its =>
-    intro bs
-    cases bs with
-    | nil => cases it <;> simp [allPieces, Item.pieces, NoElemHead]
-    | cons b bs =>
-      cases it with
-      | scalar _ _ => simp [allPieces, Item.pieces, NoElemHead]
-      | list _ _ _ _ _ => cases b <;> simp [allPieces, Item.pieces, NoElemHead]
+    intro os
+    cases os with
+    | nil => simp only [allPieces]; exact noElemHead_pieces it .whole _
+    | cons o os => simp only [allPieces]; exact noElemHead_pieces it o _
+
+theorem reassemble_pieces (it : Item) (o : Out) (ho : o.complete = true) (rest : List Piece)
+    (hr : NoElemHead rest) : reassemble (it.pieces o ++ rest) = content it :: reassemble rest := by
+  cases it with
+  | scalar id sz st => cases o <;> simp_all [Item.pieces, reassemble, content, Out.complete]
+  | list id whole empty elems probe st stE =>
+    cases o with
+    | whole => simp [Item.pieces, reassemble, content]
+    | split =>
+      simp only [Item.pieces, List.cons_append, reassemble, content]
+      rw [takeElems_elemPieces id elems 0 rest hr]
+    | failed => simp [Out.complete] at ho
+    | cut k => simp [Out.complete] at ho
 
 /-- **Reassembly**: whatever the whole/streamed choices, the stream of reports reassembles to the
 selected items, each once, in order, lists with all their elements in order. -/
-theorem reassemble_allPieces : ∀ (its : List Item) (bs : List Bool),
-    reassemble (allPieces its bs) = its.map content := by
+theorem reassemble_allPieces : ∀ (its : List Item) (os : List Out), (∀ o ∈ os, o.complete = true) →
+    reassemble (allPieces its os) = its.map content := by
   intro its
   induction its with
-  | nil => intro bs; simp [allPieces, reassemble]
+  | nil => intro os _; simp [allPieces, reassemble]
   | cons it its ih =>
-    intro bs
-    have key : ∀ (b : Bool) (rest : List Piece), NoElemHead rest →
-        reassemble (it.pieces b ++ rest) = content it :: reassemble rest := by
-      intro b rest hr
-      cases it with
-      | scalar id sz => simp [Item.pieces, reassemble, content]
-      | list id whole empty elems probe =>
-        cases b with
-        | false => simp [Item.pieces, reassemble, content]
-        | true =>
-          rw [pieces_split_eq]
-          simp only [List.cons_append, reassemble, content]
-          rw [takeElems_elemPieces id elems 0 rest hr]
-    cases bs with
+    intro os hos
+    cases os with
     | nil =>
       simp only [allPieces, List.map_cons]
-      rw [key false _ (noElemHead_allPieces its []), ih []]
-    | cons b bs =>
+      rw [reassemble_pieces it .whole rfl _ (noElemHead_allPieces its []), ih [] (by simp)]
+    | cons o os =>
       simp only [allPieces, List.map_cons]
-      rw [key b _ (noElemHead_allPieces its bs), ih bs]
+      rw [reassemble_pieces it o (hos o (by simp)) _ (noElemHead_allPieces its os),
+        ih os (fun x hx => hos x (by simp [hx]))]
 
-/-- the client's view of a chunked answer is exactly the selected items -/
-theorem reassembled_answer {c : Cfg} {items : List Item} {cs : List ChunkOut} (hw : c.WF)
-    (h : chunks c items = .ok cs) : reassemble (cs.flatMap (·.pieces)) = items.map content := by
-  obtain ⟨splits, _, hf⟩ := concat_eq_items hw h
-  rw [hf, reassemble_allPieces]
+/-- under `Fits` the client's view of a chunked answer is exactly the selected attributes -/
+theorem reassembled_answer {c : Cfg} {r : Req} {cs : List ChunkOut} (hw : c.WF) (ha : Ascending r)
+    (hf : Fits c (selOf r.attrs)) (h : respond c r = .ok cs) :
+    reassemble (cs.flatMap (·.pieces)) = (selOf r.attrs).map content := by
+  obtain ⟨outs, hj, hfl⟩ := (respond_good hw ha h).attrs
+  rw [hfl, reassemble_allPieces _ _ (complete_of_fits hj hf)]
 
-/-! ## termination bound -/
+/-- **C14 on the model**: when the error statuses and the event reports fit an empty message the
+responder ends with a `Good` answer; under `Fits` every selected attribute is delivered completely
+and the stream reassembles to the original values -/
+theorem C14_partial {c : Cfg} {r : Req} (hw : c.WF) (ha : Ascending r) (hs : StatusFits c r)
+    (he : EvFits c r.events) :
+    ∃ cs, respond c r = .ok cs ∧ Good c r cs ∧
+      (Fits c (selOf r.attrs) → reassemble (cs.flatMap (·.pieces)) = (selOf r.attrs).map content) := by
+  obtain ⟨cs, h⟩ := respond_total hw hs he
+  exact ⟨cs, h, respond_good hw ha h, fun hf => reassembled_answer hw ha hf h⟩
+
+/-- the configuration of a read over UDP -/
+def readCfg : Cfg :=
+  { cap := 1178, reserve := Consts.longReadsReserve, structReserve := Consts.longReadsStructReserve,
+    hdr := 1, arrOpen := 2, close := 1, trailerMore := 7, trailerDone := 6 }
+
+theorem readCfg_wf : readCfg.WF := by
+  refine ⟨?_, ?_, ?_, ?_, ?_, ?_⟩ <;> decide
+
+/-- a subscription report: the header carries the subscription id, the last message asks for a status -/
+def subCfg : Cfg := { readCfg with hdr := 4, trailerDone := 4 }
+
+theorem subCfg_wf : subCfg.WF := by
+  refine ⟨?_, ?_, ?_, ?_, ?_, ?_⟩ <;> decide
+
+/-- a request with a filtered attribute, a list longer than a message, and events with a filter -/
+def sampleReq : Req :=
+  { attrs := some [{ item := .scalar 0 1147 30 }, { item := .scalar 1 40 30, dataver := 7, filter := some 7 },
+                   { item := .list 16 2000 26 [128, 128, 1147] 23 30 32 }],
+    events := some { buf := [⟨1, 300, true⟩, ⟨2, 900, true⟩, ⟨3, 900, false⟩, ⟨5, 1100, true⟩], mins := [2],
+                     nextMax := 100, statuses := [40] } }
+
+/-- the hypotheses of `C14_partial` are satisfiable (with a data-version filter that holds an
+attribute back, an event filter, an event that does not match, a list longer than a message) -/
+example : readCfg.WF ∧ Ascending sampleReq ∧ StatusFits readCfg sampleReq ∧ EvFits readCfg sampleReq.events ∧
+    Fits readCfg (selOf sampleReq.attrs) := by
+  refine ⟨readCfg_wf, by simp [Ascending, sampleReq], ?_, ⟨?_, ?_⟩, ?_⟩
+  · intro it hit; simp [sampleReq, selOf, selected, yielded, AttrReq.unchanged] at hit
+    rcases hit with rfl | rfl <;> decide
+  · intro sz hsz; simp at hsz; subst hsz; decide
+  · intro e he _; simp at he
+    rcases he with rfl | rfl | rfl | rfl <;> decide
+  · intro it hit; simp [sampleReq, selOf, selected, yielded, AttrReq.unchanged] at hit
+    rcases hit with rfl | rfl <;> decide
+
+set_option maxRecDepth 16000 in
+/-- what the model answers to it: the attribute held back by its data-version filter, the event
+below the filter's minimum and the event that does not match are left out; the list is streamed
+(its last element fills a message, so the end-of-list probe sends it); the events follow, the
+cursor resuming after the last event written -/
+example : (respond readCfg sampleReq).toOption.map
+      (·.map fun ch => (ch.pieces.length, ch.events, ch.size, ch.more)) =
+    some [(1, [], 1157, true), (3, [], 292, true), (1, [], 1157, true),
+          (0, [.status 0 40, .data 2 900], 953, true), (0, [.data 5 1100], 1110, false)] := by rfl
+
+/-- an attribute read of `items` without filters -/
+def plain (items : List Item) : List AttrReq := items.map fun it => { item := it }
+
+theorem selected_plain (items : List Item) : selected (plain items) = items := by
+  induction items with
+  | nil => rfl
+  | cons it its ih =>
+    simp [plain, selected, yielded, AttrReq.unchanged] at ih ⊢
+    exact ih
+
+/-! ## reads of attributes only -/
+
+/-- an `ok` result of an attribute read comes from a final attribute state satisfying the invariant -/
+theorem chunks_ok_shape {c : Cfg} {items : List Item} {cs : List ChunkOut} (hw : c.WF)
+    (h : chunks c items = .ok cs) :
+    ∃ s, putItems c items (St.init c) = .ok s ∧ Inv c s ∧
+      cs = ({ pieces := s.cur.reverse, size := s.used + c.close + c.trailerDone, more := false } :: s.done).reverse := by
+  unfold chunks at h
+  obtain ⟨s1, s2, h1, h2, _, _, _, hcs⟩ := respond_shape hw h
+  simp only [eventSection] at h2
+  injection h2 with h2; subst h2
+  obtain ⟨s, hp, hinv, hd, ha, he, hu, _, _, _⟩ := attrSection_some hw h1
+  have hsel : selected (items.map fun it => ({ item := it } : AttrReq)) = items := selected_plain items
+  rw [hsel] at hp
+  refine ⟨s, hp, hinv, ?_⟩
+  rcases hcs with ⟨_, hsup, _, _⟩ | hcs
+  · simp at hsup
+  · rw [hcs, hd, ha, he, hu]; rfl
+
+theorem chunks_good {c : Cfg} {items : List Item} {cs : List ChunkOut} (hw : c.WF)
+    (h : chunks c items = .ok cs) :
+    ∃ outs, AllJustified c items outs ∧ cs.flatMap (·.pieces) = allPieces items outs := by
+  have := (respond_good (r := { attrs := some (plain items) }) hw trivial h).attrs
+  simpa [selOf, selected_plain] using this
+
+/-- the length of every message is header + array start + its reports + its trailer -/
+theorem chunk_size_accounts {c : Cfg} {items : List Item} {cs : List ChunkOut} (hw : c.WF)
+    (h : chunks c items = .ok cs) : ∀ ch ∈ cs,
+    ch.size = c.hdr + c.arrOpen + sumSizes ch.pieces +
+      (if ch.more then c.trailerMore else c.close + c.trailerDone) := by
+  obtain ⟨s, hp, hinv, rfl⟩ := chunks_ok_shape hw h
+  intro ch hch
+  simp only [List.mem_reverse, List.mem_cons] at hch
+  rcases hch with rfl | hch
+  · simp only [sumSizes_reverse]
+    have := hinv.usedEq
+    simp; omega
+  · obtain ⟨h1, _, h3, _⟩ := hinv.doneOk ch hch
+    rw [h3, h1]; simp
+
+/-- every message except possibly the last carries at least one report -/
+theorem progress {c : Cfg} {items : List Item} {cs : List ChunkOut} (hw : c.WF)
+    (h : chunks c items = .ok cs) : ∀ ch ∈ cs.dropLast, ch.pieces ≠ [] := by
+  obtain ⟨s, hp, hinv, rfl⟩ := chunks_ok_shape hw h
+  intro ch hch
+  simp only [List.reverse_cons, List.dropLast_concat] at hch
+  exact hinv.doneNonempty ch (List.mem_reverse.mp hch)
 
 theorem length_le_flatMap_of_nonempty : ∀ (cs : List ChunkOut), (∀ ch ∈ cs, ch.pieces ≠ []) →
     cs.length ≤ (cs.flatMap (·.pieces)).length := by
@@ -281,49 +441,75 @@ theorem length_le_flatMap_of_nonempty : ∀ (cs : List ChunkOut), (∀ ch ∈ cs
 theorem chunk_count_bounded {c : Cfg} {items : List Item} {cs : List ChunkOut} (hw : c.WF)
     (h : chunks c items = .ok cs) : cs.length ≤ (cs.flatMap (·.pieces)).length + 1 := by
   have hp := progress hw h
-  obtain ⟨front, last, rfl, _, _⟩ := only_last_ends hw h
-  simp only [List.dropLast_concat] at hp
-  have := length_le_flatMap_of_nonempty front hp
-  simp only [List.length_append, List.length_singleton, List.flatMap_append]
+  obtain ⟨s, _, _, rfl⟩ := chunks_ok_shape hw h
+  simp only [List.reverse_cons, List.dropLast_concat] at hp
+  have := length_le_flatMap_of_nonempty _ hp
+  simp only [List.reverse_cons, List.length_append, List.length_singleton, List.flatMap_append,
+    List.length_reverse] at this ⊢
   omega
 
-/-! ## outside `Fits`, and the defect of the unrepaired code -/
+set_option maxRecDepth 8000 in
+/-- an item that fills the message exactly is chunked, not failed -/
+example : chunks readCfg [.scalar 0 500 30, .scalar 1 647 30] =
+    .ok [{ pieces := [.scalar 0 500, .scalar 1 647], size := 1157, more := false }] := by rfl
 
-/-- a report that does not fit an empty message: the retry loop of the code never ends (the model
-reports `loops`; the implementation keeps sending empty chunks) -/
-theorem oversize_item_loops {c : Cfg} (hw : c.WF) (id sz : Nat)
-    (h : c.limit < c.hdr + c.arrOpen + sz) : chunks c [.scalar id sz] = .error .loops := by
-  have hp := put_oversize (inv_init c hw) (.scalar id sz) (by simpa [Piece.size] using h)
-  simp only [chunks, putItems, putItem, hp]
+set_option maxRecDepth 8000 in
+example : chunks readCfg [.scalar 0 500 30, .scalar 1 648 30] =
+    .ok [{ pieces := [.scalar 0 500], size := 510, more := true },
+         { pieces := [.scalar 1 648], size := 658, more := false }] := by rfl
 
-/-- **Full statement** (for every combination of value sizes): refuted by `oversize_item_loops` -/
+/-! ## a value that fits no message -/
+
+set_option maxRecDepth 8000 in
+/-- a value that fits no message: the repaired code answers the attribute with an error status (the
+unrepaired code sent empty chunks forever) and goes on with the rest of the request -/
+theorem oversize_item_gets_status :
+    chunks readCfg [.scalar 0 1148 30, .scalar 1 10 30] =
+      .ok [{ pieces := [.status 0 30, .scalar 1 10], size := 50, more := false }] := by rfl
+
+/-- **Full statement** (every selected value is delivered, whatever its size): no responder can
+meet it for a value longer than a message; refuted on the model by `oversize_item_gets_status` -/
 def C14_full : Prop :=
-  ∀ (c : Cfg) (items : List Item), c.WF → c.close ≤ c.structReserve →
-    ∃ cs, chunks c items = .ok cs ∧ Good c items cs
+  ∀ (c : Cfg) (r : Req), c.WF → Ascending r →
+    ∃ cs, respond c r = .ok cs ∧ Good c r cs ∧
+      reassemble (cs.flatMap (·.pieces)) = (selOf r.attrs).map content
 
+set_option maxRecDepth 8000 in
 theorem C14_full_fails : ¬ C14_full := by
   intro h
-  obtain ⟨cs, hc, _⟩ := h readCfg [.scalar 0 1148] readCfg_wf (by decide)
-  have : chunks readCfg [.scalar 0 1148] = .error .loops :=
-    oversize_item_loops readCfg_wf 0 1148 (by decide)
-  rw [this] at hc
-  cases hc
+  obtain ⟨cs, hc, _, hre⟩ := h readCfg { attrs := some (plain [.scalar 0 1148 30, .scalar 1 10 30]) } readCfg_wf trivial
+  have h2 := oversize_item_gets_status
+  unfold chunks at h2
+  have : (fun it => ({ item := it } : AttrReq)) = fun it => { item := it } := rfl
+  simp only [plain] at hc
+  rw [h2] at hc
+  injection hc with hc
+  subst hc
+  simp [selOf, selected, yielded, AttrReq.unchanged, reassemble, content, plain] at hre
 
-/-- the configuration before `fix: long reads: … structural reserve` -/
+/-! ## the defect of the unrepaired code -/
+
+/-- `report_attributes` + `send(Done)` before `fix: long reads: … structural reserve`: the array end
+is written inside the shrunk buffer, without `expand` and without a retry -/
+def chunksOld (c : Cfg) (items : List Item) : Except Err (List ChunkOut) :=
+  match putItems c items (St.init c) with
+  | .ok s =>
+    if s.used + c.close ≤ c.limit then
+      .ok (({ pieces := s.cur.reverse, size := s.used + c.close + c.trailerDone, more := false } :: s.done).reverse)
+    else .error .noSpace
+  | .error err => .error err
+
+/-- the configuration before the fix: no structural reserve -/
 def oldCfg : Cfg := { readCfg with structReserve := 0 }
 
 set_option maxRecDepth 8000 in
 /-- **Defect of the unrepaired code**: a value that fills the message exactly (it fits an empty
 message: `Fits` holds) made the array end fail with `NoSpace` — the whole read failed instead of
-being answered; the repaired configuration answers it. -/
+being answered; the repaired code answers it. -/
 theorem exact_fit_fails_before_fix :
-    oldCfg.WF ∧ Fits oldCfg [.scalar 0 1151] ∧ chunks oldCfg [.scalar 0 1151] = .error .noSpace ∧
-    chunks readCfg [.scalar 0 1147] = .ok [{ pieces := [.scalar 0 1147], size := 1157, more := false }] := by
-  refine ⟨⟨?_, ?_, ?_, ?_⟩, ?_, ?_, ?_⟩
-  · decide
-  · decide
-  · decide
-  · decide
+    Fits oldCfg [.scalar 0 1151 30] ∧ chunksOld oldCfg [.scalar 0 1151 30] = .error .noSpace ∧
+    chunks readCfg [.scalar 0 1147 30] = .ok [{ pieces := [.scalar 0 1147], size := 1157, more := false }] := by
+  refine ⟨?_, ?_, ?_⟩
   · intro it hit; simp at hit; subst hit; decide
   · rfl
   · rfl
